@@ -294,7 +294,7 @@ fn probes(ty: &Ty, val: &Val, st: &mut Stats) {
                 if kvs.is_empty() {
                     st.inc("probe.empty_map");
                 }
-                if !matches!(kt, KeyTy::Str | KeyTy::NewtypeStr(_) | KeyTy::UnitVariant(..)) {
+                if !matches!(kt, KeyTy::Str | KeyTy::NewtypeStr(_) | KeyTy::UnitVariant(..) | KeyTy::SpannedStr) {
                     st.inc("probe.non_string_key");
                 }
                 if matches!(kt, KeyTy::UnitVariant(..)) {
